@@ -41,6 +41,7 @@ func cmdWriters(args []string) int {
 					continue
 				}
 				fmt.Printf("%s: writers=%v addrTaken=%v inE(foreign)=%v inE(fresh)=%v\n", a, fr.Writers(f), fr.addrTaken[f], fr.wE.vars[f], fr.wE.fresh[f])
+				fmt.Printf("   inLight(foreign)=%v inLight(fresh)=%v heavy=%v\n", fr.wLight.vars[f], fr.wLight.fresh[f], fr.heavyList)
 				for _, n := range fr.allNodes() {
 					if n.writes.vars[f] {
 						fmt.Printf("   foreign write in %s (reachable from E: %v)\n", n.name(), fr.reachE[n])
